@@ -39,6 +39,8 @@ struct Ctx {
     /// the C02 chain receiver was started from, or stepped through, a state affected by F12
     chain_tainted: bool,
     force_f12: bool,
+    /// a snapshot was installed as the parser's screen (`U k`): its scrollback capacity is not the case's
+    foreign_screen: bool,
 }
 
 impl Ctx {
@@ -137,13 +139,16 @@ fn recipe_for(prop: &str) -> Recipe {
     match prop {
         "C05" => Recipe {
             setup: MOVE_SETUP,
-            focus: &[(Kind::Text, 10), (Kind::TextMargin, 10), (Kind::Zero, 5), (Kind::WideEdit, 5)],
+            focus: &[(Kind::Text, 10), (Kind::TextMargin, 10), (Kind::Zero, 5), (Kind::WideEdit, 5), (Kind::Alt, 1), (Kind::Mode, 1), (Kind::Region, 1), (Kind::SaveRestore, 1)],
             api_scrollback: true,
             ..base
         },
-        "C06" => Recipe { setup: MOVE_SETUP, focus: &[(Kind::Move, 10), (Kind::Region, 4)], api_scrollback: true, ..base },
-        "C07" => Recipe { setup: MOVE_SETUP, focus: &[(Kind::Erase, 4), (Kind::WideEdit, 1)], api_scrollback: true, ..base },
-        "C08" => Recipe { setup: MOVE_SETUP, focus: &[(Kind::Shift, 4), (Kind::WideEdit, 1)], api_scrollback: true, ..base },
+        // (the operations a property is about act on state that OTHER operations leave behind — screen switches,
+        // mode lists, saved cursors, resets: in step mode a setup operation is never compared, so each of the
+        // per-operation recipes also takes those as focus steps now and then)
+        "C06" => Recipe { setup: MOVE_SETUP, focus: &[(Kind::Move, 10), (Kind::Region, 4), (Kind::Mode, 3), (Kind::Alt, 1), (Kind::SaveRestore, 1), (Kind::Ris, 1)], api_scrollback: true, ..base },
+        "C07" => Recipe { setup: MOVE_SETUP, focus: &[(Kind::Erase, 16), (Kind::WideEdit, 4), (Kind::Alt, 1), (Kind::Mode, 1), (Kind::Region, 1), (Kind::SaveRestore, 1)], api_scrollback: true, ..base },
+        "C08" => Recipe { setup: MOVE_SETUP, focus: &[(Kind::Shift, 16), (Kind::WideEdit, 4), (Kind::Alt, 2), (Kind::Mode, 1), (Kind::Region, 2), (Kind::SaveRestore, 1), (Kind::Ris, 1)], api_scrollback: true, ..base },
         "C09" => Recipe {
             // every pen-to-pen change the crate emits: the contents emitters change pens between cells,
             // around erase runs and around the cursor fix-up
@@ -207,6 +212,21 @@ fn api_noise(ctx: &mut Ctx, rec: &Recipe, as_setup: bool) {
         } else {
             ctx.sess.checked(&line, "Z");
             ctx.sess.checked("D", "D:Z");
+        }
+    }
+    if ctx.rng.chance(1, 25) {
+        // `*parser.screen_mut() = snapshot.clone()`: the public API lets a caller install another screen — from an
+        // earlier moment of this history or (slot 1) from a different parser of another capacity
+        let k = ctx.rng.below(2);
+        if ctx.sess.runner.slots.get(k as usize).is_some_and(Option::is_some) {
+            let line = format!("U {k}");
+            ctx.foreign_screen = true;
+            if as_setup {
+                ctx.sess.setup(&line);
+            } else {
+                ctx.sess.checked(&line, "U");
+                ctx.sess.checked("D", "D:U");
+            }
         }
     }
     if rec.api_scrollback && ctx.rng.chance(1, 5) {
@@ -843,8 +863,11 @@ fn run_generic(ctx: &mut Ctx, n_cases: u64) {
             rec.cb
         };
         let rec = Recipe { cb, ..rec };
-        let (rows, cols, sb) = ctx.new_case(rec.cb, u8::from(rec.sb));
-        if matches!(ctx.prop.as_str(), "C02" | "C19" | "C09" | "C10") && ctx.rng.chance(1, 2) {
+        let (rows, cols, mut sb) = ctx.new_case(rec.cb, u8::from(rec.sb));
+        ctx.foreign_screen = false;
+        if matches!(ctx.prop.as_str(), "C02" | "C19" | "C09" | "C10") && ctx.rng.chance(1, 2)
+            || matches!(ctx.prop.as_str(), "C17" | "C12" | "C03" | "C13" | "C11" | "C16") && ctx.rng.chance(1, 4)
+        {
             // pairs from independent histories: a prologue on the same size whose end state is kept
             // in slot 1, then a new parser for the history proper (the case stays self-contained)
             let n = ctx.rng.range(1, 6);
@@ -864,10 +887,13 @@ fn run_generic(ctx: &mut Ctx, n_cases: u64) {
             // set_size in the prologue may have changed the size: the history proper uses the
             // size the snapshot has, so that the pair is comparable
             let (r2, c2) = ctx.sess.screen().map_or((rows, cols), |s| (u64::from(s.size().0), u64::from(s.size().1)));
+            // (the second parser has another scrollback capacity half of the time)
+            sb = if ctx.rng.chance(1, 2) { gen::pick_sb(&mut ctx.rng, r2) } else { sb };
             ctx.sess.restart_keep(r2, c2, sb, rec.cb);
         }
         let mut dirty: Option<Vec<u8>> = None;
         let mut chain = None;
+        let mut last_focus: Option<(Kind, Vec<u8>)> = None;
         for step in 0..rec.steps {
             if ctx.sess.dead {
                 break;
@@ -910,8 +936,17 @@ fn run_generic(ctx: &mut Ctx, n_cases: u64) {
                 let bytes = g.placement();
                 ctx.sess.process_checked(&bytes, "Placement");
             }
-            let k = g.pick_kind(rec.focus);
+            let mut k = g.pick_kind(rec.focus);
             let mut bytes = g.chunk(k);
+            // the same input once more, one time in ten: nothing the crate remembers about the previous
+            // sequence (a last-reported title, a cached answer) may change what the second one does
+            if let Some((k0, b0)) = &last_focus {
+                if g.rng.chance(1, 10) {
+                    k = *k0;
+                    bytes = b0.clone();
+                }
+            }
+            last_focus = Some((k, bytes.clone()));
             let tag = kind_tag(k);
             let mut ris_plus_more = false;
             if ctx.prop == "C17" && g.rng.chance(1, 3) {
@@ -965,7 +1000,7 @@ fn run_generic(ctx: &mut Ctx, n_cases: u64) {
             }
             // (the fresh-parser oracle applies to the state right after the reset: not when more
             // input followed it in the same step — that case is decided by the step correspondence)
-            if ctx.prop == "C17" && !ctx.sess.dead && !ris_plus_more {
+            if ctx.prop == "C17" && !ctx.sess.dead && !ris_plus_more && !ctx.foreign_screen {
                 let size = ctx.sess.screen().map(|s| s.size());
                 if let (Some(p), Some((r, c))) = (ctx.sess.runner.parser.as_ref(), size) {
                     let f = oracle::c17(p, r, c, sb as usize);
@@ -1044,6 +1079,8 @@ fn run_c04(ctx: &mut Ctx, n_cases: u64) {
         b"a\xe4\xb8\x80\xcc\x81\x1b[2D\x1b[1P\xe4\xb8\x80\x1b[2@\x1b[X",
         b"\x1b[41m\x1b[K\x1b[?47h\x1b[42m\x1b[2;1H\x1b[K\x1b[?47l\x1b[m\x1b[?1049h\x1b[?1049l\x1b[?47h",
     ] {
+        // twice: one of the two copies starts from a scrolled-back view with history (see `prelude` below)
+        cut_templates.push((sc.to_vec(), (1..sc.len()).collect()));
         cut_templates.push((sc.to_vec(), (1..sc.len()).collect()));
     }
     // one very long call: a multi-byte character straddling a power-of-two offset of the buffer
@@ -1057,6 +1094,21 @@ fn run_c04(ctx: &mut Ctx, n_cases: u64) {
             v.extend_from_slice(ch.as_bytes());
             v.extend_from_slice(b"!\x1b[31mz");
             cut_templates.push((v, vec![k / 2, k]));
+        }
+    }
+    // very long control strings (a DCS / APC / OSC payload of thousands of bytes), cut inside the payload
+    for (intro, end) in [(&b"\x1bP0;1q"[..], &b"\x1b\\"[..]), (b"\x1b_", b"\x1b\\"), (b"\x1b]2;", b"\x07"), (b"\x1bP1$r", b"\x18")] {
+        for n in [1030usize, 4200, 5000] {
+            let mut v = b"ab".to_vec();
+            v.extend_from_slice(intro);
+            let st = v.len();
+            v.extend(std::iter::repeat(b'~').take(n));
+            v.extend_from_slice(end);
+            v.extend_from_slice(b"cd\x1b[31mz");
+            let mut cuts = vec![st + n / 2, st + n - 20, st + n.min(4097)];
+            cuts.sort_unstable();
+            cuts.dedup();
+            cut_templates.push((v, cuts));
         }
     }
     let n_templates = (templates.len() + cut_templates.len()) as u64;
@@ -1087,10 +1139,22 @@ fn run_c04(ctx: &mut Ctx, n_cases: u64) {
         if bytes.len() > 60 && fixed_cuts.is_none() {
             bytes.truncate(60);
         }
+        // the very long calls scroll tens of thousands of lines: with a large capacity every one of them is
+        // kept, and the model's history is a list (quadratic) — a small capacity exercises the same code
+        let sb = if bytes.len() > 1000 { sb.min(5) } else { sb };
+        // one case in three starts from a screen with history and a scrolled-back view (set through the API before
+        // the bytes arrive): what the bytes do to the view must not depend on where the calls are cut either
+        let scenario = fixed_cuts.is_some() && bytes.len() <= 200;
+        let sb = if scenario && case_i % 2 == 0 { sb.clamp(3, 1000) } else { sb };
+        let prelude: Option<u64> = if sb > 0 && (ctx.rng.chance(1, 3) || scenario && case_i % 2 == 0) { Some(*ctx.rng.pick(&[1u64, 2, rows, 9])) } else { None };
         // reference: whole
         let reference = |ctx: &mut Ctx, chunks: &[&[u8]], via_write: bool, tag: &str| -> (String, String) {
             ctx.case_start = ctx.sess.ops.len();
             ctx.sess.new_case(rows, cols, sb, if via_write { "plain" } else { "none" }, "C04");
+            if let Some(k) = prelude {
+                ctx.sess.checked("P 310d0a320d0a330d0a340d0a350d0a360d0a37", "prelude");
+                ctx.sess.checked(&format!("B {k}"), "prelude");
+            }
             for (ci, ch) in chunks.iter().enumerate() {
                 let line = if via_write { write_plan(ch, ci).0 } else { format!("P {}", hex(ch)) };
                 ctx.sess.checked(&line, tag);
@@ -1159,7 +1223,12 @@ fn run_c04(ctx: &mut Ctx, n_cases: u64) {
                 };
                 let key = c04_key(&bytes, &eff, &whole, &got);
                 let ops = ctx.sess.ops[ctx.case_start..].to_vec();
-                let mut all = vec![format!("N {rows} {cols} {sb} none"), format!("P {}", hex(&bytes)), "D".into(), "E".into()];
+                let mut all = vec![format!("N {rows} {cols} {sb} none")];
+                if let Some(k) = prelude {
+                    all.push("P 310d0a320d0a330d0a340d0a350d0a360d0a37".into());
+                    all.push(format!("B {k}"));
+                }
+                all.extend([format!("P {}", hex(&bytes)), "D".into(), "E".into()]);
                 all.extend(ops);
                 if ctx.failures.len() < 200 {
                     ctx.failures.push((
@@ -1296,6 +1365,7 @@ fn cmd_gen(prop: &str, seed: u64, tier: &str, outdir: &str) {
         oracle_cases: 0,
         chain_tainted: false,
         force_f12: false,
+        foreign_screen: false,
         prop: prop.to_string(),
     };
     let _ = std::fs::create_dir_all(outdir);
